@@ -7,7 +7,7 @@ encoder side:  EncodedArray(fn)  -> ordered list of emitted slots {index, kind, 
 Both are computed from provenance terms + the vec-length analysis; nothing is pattern-matched on
 source text.
 """
-from .prov import Prov, show, is_call, subterms, calls_in, mk_phi, resolve_consts
+from .prov import Prov, show, is_call, subterms, calls_in, mk_phi, resolve_consts, TRY_BRANCH
 from .guards import outcomes, conditions, path_variants, normalize_bool_cond, cond_variants
 from .veclen import VecLen, VEC_REMOVE, VEC_POP, VEC_PUSH, VEC_NEW, INDEX
 from .facts import callee_path
@@ -50,8 +50,72 @@ def arms(pv, op, bb, idx, depth=0):
         dl, dbb, didx, payload = pv._defs[di]
         if didx != "term" and payload["k"] == "use" and payload["op"]["k"] in ("copy", "move") and not payload["op"]["place"]["p"]:
             out.extend(arms(pv, payload["op"], dbb, didx, depth + 1))
+            continue
+        through = _arms_through_try(pv, payload, dbb, didx, depth) if didx != "term" else None
+        if through is not None:
+            out.extend(through)
         else:
             out.append((pv.def_term(di), dbb))
+    return out
+
+
+def _arms_through_try(pv, payload, dbb, didx, depth):
+    """`x = (branch(R) as Continue).0` where R has several definitions (a match whose arms each build Ok(..) / an
+    error - typically an inlined helper): the arms of x are the payloads of R's Ok arms; error arms cannot continue"""
+    from .prov import is_err_term
+    if payload["k"] != "use" or payload["op"]["k"] not in ("copy", "move"):
+        return None
+    pl = payload["op"]["place"]
+    if len(pl["p"]) != 2 or pl["p"][0][0] != "downcast" or pl["p"][0][1] != "Continue" or pl["p"][1][0] != "field":
+        return None
+    ds = pv.reaching(pl["l"], dbb, didx)
+    if len(ds) != 1 or -1 in ds:
+        return None
+    _, bbb, bidx, bt = pv._defs[next(iter(ds))]
+    if bidx != "term" or callee_path(bt) != TRY_BRANCH:
+        return None
+    out = []
+    for term, rbb, rpayload in _def_stmts(pv, bt["args"][0], bbb, "term", depth + 1):
+        if is_err_term(pv.prog, term):
+            continue
+        if rpayload is not None and rpayload["k"] == "aggr" and rpayload.get("variant") in ("Ok", "Some") and rpayload["ops"]:
+            rbi = rpayload["_at"]
+            out.extend(arms(pv, rpayload["ops"][0], rbi[0], rbi[1], depth + 1))
+        else:
+            return None
+    return out or None
+
+
+def _def_stmts(pv, op, bb, idx, depth=0):
+    """like arms() but yields (term, def bb, defining rvalue dict or None); rvalue dicts get '_at' = (bb, idx)"""
+    if op["k"] not in ("copy", "move") or op["place"]["p"] or depth > 8:
+        return [(pv.operand_term(op, bb, idx), bb, None)]
+    l = op["place"]["l"]
+    out = []
+    for di in sorted(pv.reaching(l, bb, idx)):
+        if di == -1:
+            out.append((pv.local_term(l, bb, idx), bb, None))
+            continue
+        dl, dbb, didx, payload = pv._defs[di]
+        if didx != "term" and payload["k"] == "use" and payload["op"]["k"] in ("copy", "move") and not payload["op"]["place"]["p"]:
+            out.extend(_def_stmts(pv, payload["op"], dbb, didx, depth + 1))
+        elif didx == "term":
+            out.append((pv.def_term(di), dbb, None))
+        else:
+            payload["_at"] = (dbb, didx)
+            out.append((pv.def_term(di), dbb, payload))
+    return out
+
+
+def ok_payload_arms(fn, pv):
+    """(term, def bb) for every definition of the payload of every Ok(..) the function returns: the same list for
+    `Ok(match x { A => e1, B => e2 })` and `match x { A => Ok(e1), B => Ok(e2) }`"""
+    out = []
+    for o in outcomes(fn, pv):
+        if o["kind"] != "ok" or o["idx"] == "term":
+            continue
+        st = fn.blocks[o["bb"]]["stmts"][o["idx"]]
+        out.extend(arms(pv, st["rv"]["ops"][0], o["bb"], o["idx"]))
     return out
 
 
@@ -368,8 +432,22 @@ def vec_elements(fn, pv, l, bb, idx):
             loops = cfg.in_loop(e["bb"])
             pushes.append({"op": t["args"][1], "at": (e["bb"], "term"), "bb": e["bb"], "via": "push",
                            "conds": conditions(fn, pv, e["bb"]), "loop": loops[-1] if loops else None})
+        if e["kind"] == "call" and e["callee"] == EXTEND and e["argi"] == 0 and e["place"][0] == "local" and e["place"][1] in locals_:
+            t = fn.blocks[e["bb"]]["term"]
+            loops = cfg.in_loop(e["bb"])
+            conds = conditions(fn, pv, e["bb"])
+            d = find_def_stmt(pv, t["args"][1], e["bb"], "term")
+            if d and d[0] == "stmt" and d[1]["k"] == "aggr" and d[1].get("kind") == "array":
+                # v.extend([a, b, ..]) is push(a); push(b); ..
+                for k, op in enumerate(d[1]["ops"]):
+                    pushes.append({"op": op, "at": (d[2], d[3]), "bb": e["bb"], "sub": k, "via": "push",
+                                   "conds": conds, "loop": loops[-1] if loops else None})
+            else:
+                # v.extend(<iterator>): an unknown number of elements, like a loop of pushes
+                pushes.append({"op": t["args"][1], "at": (e["bb"], "term"), "bb": e["bb"], "via": "extend",
+                               "conds": conds, "loop": loops[-1] if loops else None})
     order = {b: i for i, b in enumerate(cfg.rpo)}
-    pushes.sort(key=lambda p: order.get(p["bb"], 10 ** 6))
+    pushes.sort(key=lambda p: (order.get(p["bb"], 10 ** 6), p.get("sub", 0)))
     elems.extend(pushes)
     for e in elems:
         e["term"] = pv.operand_term(e["op"], e["at"][0], e["at"][1])
@@ -394,10 +472,67 @@ def self_value(t):
     return None
 
 
+EXTEND = "core::iter::traits::collect::Extend::extend"
+OPT_MAP_OR = "core::option::Option::<T>::map_or"
+OPT_MAP = "core::option::Option::<T>::map"
+OPT_UNWRAP_OR = "core::option::Option::<T>::unwrap_or"
+OPT_UNWRAP_OR_ELSE = "core::option::Option::<T>::unwrap_or_else"
+OPT_MAP_OR_ELSE = "core::option::Option::<T>::map_or_else"
+
+
+def apply_fn(prog, fterm, args):
+    """value of calling the function value `fterm` (enum constructor or pure closure) on argument terms, or None"""
+    from .prov import subst_params
+    if fterm[0] == "fn":
+        adt, _, var = fterm[2].rpartition("::")
+        names = prog.enums.get(adt)
+        if names and var in names.values():
+            return ("aggr", adt, var, tuple((str(i), a) for i, a in enumerate(args)))
+        return None
+    if fterm[0] == "closure":
+        f = prog.fns.get(fterm[1])
+        if f is None or not f.blocks:
+            return None
+        rt = Prov(f).return_term()
+        if any(isinstance(s, tuple) and s and s[0] in ("phi", "loop", "undef") for s in subterms(rt)):
+            return None
+        return subst_params(rt, [fterm] + list(args))
+    return None
+
+
+def option_combinator_cases(prog, t):
+    """(subject Option term, value when None, value when Some) for `o.map_or(d, f)`, `o.map(f).unwrap_or(d)`,
+    `o.map_or_else(|| d, f)`; the Some value is expressed over ((subject as Some).0)"""
+    if not is_call(t):
+        return None
+    some = lambda o: ("field", ("variant", o, "Some"), "0")
+    if t[1] == OPT_MAP_OR and len(t[2]) == 3:
+        o, d, f = t[2]
+        v = apply_fn(prog, f, [some(o)])
+        return (o, d, v) if v else None
+    if t[1] == OPT_MAP_OR_ELSE and len(t[2]) == 3:
+        o, df, f = t[2]
+        d = apply_fn(prog, df, [])
+        v = apply_fn(prog, f, [some(o)])
+        return (o, d, v) if v and d else None
+    if t[1] in (OPT_UNWRAP_OR, OPT_UNWRAP_OR_ELSE) and len(t[2]) == 2 and is_call(t[2][0], OPT_MAP) and len(t[2][0][2]) == 2:
+        o, f = t[2][0][2]
+        d = t[2][1] if t[1] == OPT_UNWRAP_OR else apply_fn(prog, t[2][1], [])
+        v = apply_fn(prog, f, [some(o)])
+        return (o, d, v) if v and d else None
+    return None
+
+
 def emit_kind(prog, fn, pv, e):
     """descriptor of an emitted array element / map value: (kind, field)"""
     t = e["term"]
     f = field_of_self(t)
+    oc = option_combinator_cases(prog, t)
+    if oc and oc[0][0] == "field" and oc[0][1] == ("param", 0):
+        fld = oc[0][2]
+        if oc[2] == ("aggr", "ciborium::value::Value", "Bytes", (("0", ("field", ("variant", oc[0], "Some"), "0")),)) \
+                and oc[1] == ("aggr", "ciborium::value::Value", "Null", ()):
+            return "bstr/nil", fld
     if t[0] == "tryok" and is_call(t[1]):
         c = t[1]
         sv = self_value(c[2][0]) if len(c[2]) == 1 else None
